@@ -105,6 +105,7 @@ func checkC06(c *Ctx) {
 	c.NotCovered("the non-interference property itself: the discipline is necessary, not sufficient")
 	c.Trust("go-cty v1.16.3 operations propagate the marks of their operands to their results (WithMarks, WithSameMarks, Index, GetAttr, arithmetic, convert, function.Call)")
 	c06MarksAccumulate(c)
+	c06ForEachMarks(c)
 }
 
 func posOfSrc(c *Ctx, s *flowSrc) string {
@@ -313,4 +314,74 @@ func c06MarksAccumulate(c *Ctx) {
 		}
 	}
 	c.Floor("marks.accumulate loops", n, 2, "mark accumulators of the for/object/template evaluators")
+}
+
+// foreach.marks: what a dynamic block generates carries the marks of ITS for_each.
+func c06ForEachMarks(c *Ctx) {
+	c.Rule("foreach.marks: in expandBody.expandBlocks, after the marks of a dynamic block's for_each value have been peeled off (forEachVal.Unmark()), every child body made for that block — each expandChild call and each unknownBody literal in the code that Unmark dominates — is given exactly those marks (not the enclosing body's, not nil): the generated content depends on the for_each value whether or not it is known")
+	fn := c.P.LookupFunc("ext/dynblock", "expandBody.expandBlocks")
+	ec := c.P.LookupFunc("ext/dynblock", "expandBody.expandChild")
+	if fn == nil || ec == nil {
+		c.CheckerFail("foreach.marks", "anchor expandBlocks / expandChild does not resolve")
+		return
+	}
+	c.Fn(FuncName(fn))
+	// the Unmark of the for_each value
+	var marks ssa.Value
+	var at *ssa.BasicBlock
+	for _, b := range fn.Blocks {
+		for _, ins := range b.Instrs {
+			ex, ok := ins.(*ssa.Extract)
+			if !ok || ex.Index != 1 {
+				continue
+			}
+			call, ok := ex.Tuple.(*ssa.Call)
+			if !ok || !calleeOf(&call.Call).isCtyValueMethod("Unmark", "UnmarkDeep", "UnmarkDeepWithPaths") || len(call.Call.Args) == 0 {
+				continue
+			}
+			for fv := range fieldTrail(call.Call.Args[0]) {
+				if fv.Name() == "forEachVal" {
+					marks, at = ex, b
+				}
+			}
+		}
+	}
+	if marks == nil {
+		c.Undecided("foreach.marks", FuncName(fn)+":unmark", fn.Pos(), "the Unmark of the for_each value was not found")
+		return
+	}
+	n := 0
+	for _, b := range fn.Blocks {
+		if b != at && !at.Dominates(b) {
+			continue
+		}
+		for _, ins := range b.Instrs {
+			switch x := ins.(type) {
+			case *ssa.Call:
+				if x.Call.StaticCallee() == ec && len(x.Call.Args) == 4 {
+					n++
+					c.Sites++
+					c.Check(x.Call.Args[3] == marks, "foreach.marks", FuncName(fn)+":expandChild.marks", x.Pos(), "the for_each marks",
+						"the child body of a generated block is expanded with marks other than those of this block's for_each ("+pathName(x.Call.Args[3])+"): values decoded from the generated content lose the mark of the collection that produced them")
+				}
+			case *ssa.Store:
+				fa, ok := x.Addr.(*ssa.FieldAddr)
+				if !ok {
+					continue
+				}
+				fv := fieldVarOf(fa.X.Type(), fa.Field)
+				if fv == nil || fv.Name() != "valueMarks" {
+					continue
+				}
+				if al, ok := fa.X.(*ssa.Alloc); !ok || !isNamed(al.Type().(*types.Pointer).Elem(), modPath+"/ext/dynblock", "unknownBody") {
+					continue
+				}
+				n++
+				c.Sites++
+				c.Check(x.Val == marks, "foreach.marks", FuncName(fn)+":unknownBody.valueMarks", x.Pos(), "the for_each marks",
+					"the placeholder body for an unknown for_each is given marks other than those of this block's for_each ("+pathName(x.Val)+"): with an unknown marked collection the decoded placeholder is unmarked, while the same collection once known yields marked values")
+			}
+		}
+	}
+	c.Floor("foreach.marks sites", n, 3, "expandChild of the known and unknown branches, the unknownBody literal")
 }
